@@ -1,4 +1,6 @@
 """C05 — cached tour state equals recomputation: the cache-coherence protocol (structural clauses)."""
+import collections
+
 from .. import cg, kv, mir, typestate, util
 from ..facts import AnchorError, strip_generics, tyname
 
@@ -432,6 +434,84 @@ def k_rules(F, ctx):
                              "actor-only slots (exempt in K4) and every slot only refreshed per route are missing for these routes",
                        F.loc(fid, fn["bbs"][sites[0]]["t"]["ln"]))
 
+    # ---- K9: a slot written on some paths only must be removed / rewritten on the others, or the guard is constant per route ----
+    K9_TABLE = {
+        ("<vrp_core::construction::features::capacity::CapacitatedMultiTrip<T> as vrp_core::construction::enablers::multi_trip::MultiTrip>::recalculate_states", "MaxVehicleLoadTourStateKey"):
+            "guard is the vehicle's capacity dimension: constant per actor, and a route never changes its actor",
+        ("<vrp_core::construction::features::recharge::RechargeableMultiTrip as vrp_core::construction::enablers::multi_trip::MultiTrip>::recalculate_states", "RechargeDistanceActivityStateKey"):
+            "early return when the actor has no distance limit: constant per actor",
+        ("<vrp_core::construction::features::tour_limits::TravelLimitState as vrp_core::models::goal::FeatureState>::accept_route_state", "LimitDurationTourStateKey"):
+            "guard is the actor's duration-limit function: constant per actor",
+        ("<vrp_core::construction::features::groups::GroupState as vrp_core::models::goal::FeatureState>::accept_insertion", "CurrentGroupsTourStateKey"):
+            "per-insertion update guarded by the inserted job's group dimension (decided by C05-K5b); full rebuild at solution accept (K7)",
+        ("<vrp_core::construction::features::hierarchical_areas::HierarchicalAreasState as vrp_core::models::goal::FeatureState>::accept_insertion", "MedoidIndexTourStateKey"):
+            "per-insertion shortcut (decided by C05-K5b); accept_route_state rewrites unconditionally",
+    }
+    COMPAT = "<vrp_core::construction::features::compatibility::CompatibilityState as vrp_core::models::goal::FeatureState>::accept_route_state"
+
+    def k9(F_, r):
+        wr = {}
+        for o in kv.ops(F):
+            if o.store == "route" and o.op in ("set", "remove"):
+                fn = F.fns[o.fid]
+                if fn["impl_self"].endswith("RouteState") and fn["kind"] != "Closure":
+                    wr[o.fid] = (kv.short(o.key), o.op)
+        if len(wr) < 20:
+            raise AnchorError(f"only {len(wr)} RouteState accessor wrappers found")
+        by = collections.defaultdict(list)
+        for fid, fn in F.fns.items():
+            for bi, t in mir.calls(fn):
+                tg = t["res"] or t["callee"]
+                if tg in wr or t["callee"] in wr:
+                    k, op = wr.get(tg) or wr[t["callee"]]
+                    by[(fid, k)].append((bi, op, t["ln"]))
+        n = 0
+        for (fid, key), os_ in sorted(by.items()):
+            if not any(o[1] == "set" for o in os_):
+                continue
+            fn = F.fns[fid]
+            n += 1
+            Wb = {o[0] for o in os_}
+            seen = mir.reach(fn, [0], blocked=Wb)
+            name = f"{util.short_fn(fid)}: {key}"
+            if not (seen & set(mir.ret_blocks(fn))):
+                r.ok(name, "written (set/remove) on every path to the return")
+            elif (fid, key) in K9_TABLE:
+                r.ok(name, "table: " + K9_TABLE[(fid, key)])
+            elif fid == COMPAT:
+                _k9_compat(r, fid, name, os_)
+            else:
+                r.fail(name, "this refresh writes the slot on some paths only and neither removes it on the others nor has a confirmed per-route-constant guard: "
+                             "a value computed for an earlier tour content survives (stale cache read by the constraint)", F.loc(fid, os_[0][2]))
+        if n < 15:
+            raise AnchorError(f"only {n} slot refresh sites")
+
+    def _k9_compat(r, fid, name, os_):
+        """presence law, evaluated over new in {None, Some} x current in {None, Some}: afterwards the slot is present iff new is Some"""
+        from .. import ordeval as oe
+        for new in (0, 1):
+            for cur in (0, 1):
+                it = oe.Interp(F, fid, {1: oe.ref(oe.sym("self")), 2: oe.ref(oe.sym("route_ctx"))}, fresh=True, enum_results=True,
+                               observe=("::set_current_compatibility", "::remove_current_compatibility"),
+                               call_models={"compatibility::get_route_compatibility": (lambda i_, a, h, rl, new=new: oe.some(oe.sym("value")) if new else oe.NONE),
+                                            "::get_current_compatibility": (lambda i_, a, h, rl, cur=cur: oe.some(oe.ref(oe.sym("old"))) if cur else oe.NONE)})
+                try:
+                    paths = it.explore()
+                except oe.Undecided as e:
+                    r.fail(f"{name} [new={'Some' if new else 'None'},current={'Some' if cur else 'None'}]", f"presence law not evaluable: {e}", F.loc(fid))
+                    continue
+                for p in paths:
+                    sets = [c for c in p.calls if c[0].endswith("set_current_compatibility")]
+                    rems = [c for c in p.calls if c[0].endswith("remove_current_compatibility")]
+                    present = (cur == 1 and not rems) or bool(sets)
+                    inst = f"{name} [new={'Some' if new else 'None'},current={'Some' if cur else 'None'}]"
+                    if present == bool(new) and (not new or sets):
+                        r.ok(inst, "slot present iff the tour has a compatibility value")
+                    else:
+                        r.fail(inst, "after the refresh the slot is " + ("still present although no job of the tour carries a compatibility value" if present else "missing")
+                               + ": the stale tag keeps rejecting (or admitting) jobs", F.loc(fid))
+
+    ctx.run("C05-K9", "a slot refreshed on some paths only is removed on the others (presence law) or its guard is constant per route (reasoned table)", k9, floor=15)
     ctx.run("C05-K4", "every RouteState slot a FeatureState writes per route/insertion is also refreshed by its accept_solution_state (actor-only slots exempt)", k4, floor=12)
     ctx.run("C05-K5", "every RouteState slot written by accept_route_state is refreshed by accept_insertion (actor-only exempt)", k5, floor=12)
     ctx.run("C05-K5b", "per-insertion refresh is unconditional or guarded only by a dimension test it depends on", k5b, floor=12)
